@@ -196,6 +196,17 @@ class Runner:
                     tid = len(self.tracks)
                     self.tracks[tid] = tr
                     self.ids[id(tr)] = tid
+            elif w[0] == "schedat":
+                idx, sid, qz, dl, count, rwd = int(w[1]), int(w[2]), opt(w[3]), opt(w[4]), opt(w[5]), w[6] == "1"
+                kw = {}
+                if qz is not None:
+                    kw["quantize"] = self.beats(qz)
+                if dl is not None:
+                    kw["delay"] = self.beats(dl)
+                tr = tl.schedule(self.new_pattern(sid), count=count, remove_when_done=rwd, track_index=idx, **kw)
+                tid = len(self.tracks)
+                self.tracks[tid] = tr
+                self.ids[id(tr)] = tid
             elif w[0] == "upd":
                 tid, sid, qz, dl, count = int(w[1]), int(w[2]), opt(w[3]), opt(w[4]), opt(w[5])
                 tr = self.live(tid)
